@@ -63,6 +63,8 @@ def _callee_path(term):
 # inlined it by hand are one and the same shape for the analysis.  One line of reason each.
 ALWAYS_INLINE = {
     "reader::prefix_iter::move_on_last_prefix",   # C05-R3 reads the first-call region of RevPrefixIter::next
+    "reader::range_iter::end_contains",           # C04-R1/R3 read the far-side membership test as a region of RangeIter::next
+    "reader::range_iter::start_contains",         # ... and of RevRangeIter::next
     "sorter::Sorter::<MF, CC>::threshold_exceeded",   # C08-R1/R2 read the budget comparison as an atom of Sorter::insert's condition
 }
 
